@@ -137,7 +137,9 @@ impl TableMgr {
 
 impl MandatoryHeaderExtensionManager for TableMgr {
     fn is_mandatory_header_id_known(&self, id: u16) -> MandatoryHeaderExt {
-        match self.table.get(id) {
+        // the manager is only ever asked about mandatory ids (below 0x0100): like a real table-driven manager it
+        // looks at the low byte only.  (Were it asked about 0x0100 it would answer for id 0x00.)
+        match self.table.get(id & 0x00FF) {
             Mand::Unknown => MandatoryHeaderExt::Unknown,
             Mand::Final(n) => MandatoryHeaderExt::Final(n.min(255) as u8),
             Mand::NonFinal(n) => MandatoryHeaderExt::NonFinal(n.min(255) as u8),
